@@ -199,7 +199,7 @@ Qed.
 Lemma minimal_supergates_from_cones L m : minimal_supergates L = Ok m →
   ∀ p, p ∈ m → ∃ o l, o ∈ outputs L ∧ cone_supergates L o = Some l ∧ p.2 ∈ l.
 Proof.
-  unfold minimal_supergates. destruct (has_bb L); [done|].
+  unfold minimal_supergates, all_supergates. destruct (has_bb L); [done|]. unfold rbind.
   destruct (mapM _ _) as [pc|] eqn:Epc; [|done].
   destruct (dedupe _ []) as [all|] eqn:Ed; [|done]. destruct (keyed _) as [m'|] eqn:Ek; [|done].
   intros [= <-] p Hp. apply keyed_snd in Ek.
@@ -253,7 +253,7 @@ Proof.
   unfold supergates. destruct (minimal_supergates L) as [m| | |] eqn:Em; unfold rbind; try done.
   destruct (kahn (S (length m)) L m []) as [l|] eqn:Ek; [|done]. intros [= <-].
   assert (Forall (λ s, size (outputs (c_g s)) = 1) m.*2) as Hm.
-  { unfold minimal_supergates in Em. destruct (has_bb L); [done|]. destruct (mapM _ _) as [pc|]; [|done].
+  { unfold minimal_supergates, all_supergates in Em. destruct (has_bb L); [done|]. unfold rbind in Em. destruct (mapM _ _) as [pc|]; [|done].
     destruct (dedupe _ []) as [all|]; [|done]. destruct (keyed _) as [m'|] eqn:Ekd; [|done].
     injection Em as <-. rewrite (keyed_snd _ _ Ekd). by eapply keyed_single. }
   rewrite Forall_forall in Hm |- *. intros sg ([o s] & -> & Hp)%elem_of_list_fmap. simpl.
@@ -325,8 +325,8 @@ Proof.
   { unfold depends. apply negb_true_iff, bool_decide_eq_false. unfold gates_of. set_solver. }
   destruct (kahn_ordered L _ _ _ _ Ek) with (i := i) (j := j) (p := p) (q := q) as [?|He]; try done.
   { split; [intros ? ? Hn; by apply elem_of_nil in Hn|intros ? ? ? ? Hn; by rewrite lookup_nil in Hn]. }
-  exfalso. assert (p = q) as -> by (eapply nodup_fst_eq; eauto; unfold minimal_supergates in Em;
-    destruct (has_bb L); [done|]; destruct (mapM _ _) as [pc|]; [|done]; destruct (dedupe _ []) as [all|]; [|done]; destruct (keyed _) as [m'|] eqn:Ekd; [|done];
+  exfalso. assert (p = q) as -> by (eapply nodup_fst_eq; eauto; unfold minimal_supergates, all_supergates in Em;
+    destruct (has_bb L); [done|]; unfold rbind in Em; destruct (mapM _ _) as [pc|]; [|done]; destruct (dedupe _ []) as [all|]; [|done]; destruct (keyed _) as [m'|] eqn:Ekd; [|done];
     injection Em as <-; by eapply keyed_nodup).
   unfold gates in Hxj. set_solver.
 Qed.
